@@ -47,3 +47,23 @@ package pdf417
 //@   loop 3 invariant forall m int :: 0 <= m && m <= rangeindex ==> ecWords[m] == compl929(reg929(data, factors, count, len(data), count-1-m))
 //@   loop 3 invariant forall m int :: rangeindex < m && m < count ==> ecWords[m] == reg929(data, factors, count, len(data), count-1-m)
 //@   loop 3 invariant forall m int :: 0 <= m && m < count ==> 0 <= ecWords[m] && ecWords[m] < 929
+
+// ---------------------------------------------------------------- the image type (C11): rows are
+// moduleHeight pixels high
+//@ func (*pdfBarcode).Content
+//@   requires c != nil
+//@   ensures result == c.data
+//@ func (*pdfBarcode).Metadata
+//@   ensures result.CodeKind == barcode.TypePDF && result.Dimensions == 2
+//@ func (*pdfBarcode).ColorModel
+//@   requires c != nil
+//@   ensures result == c.color.Model
+//@ func (*pdfBarcode).ColorScheme
+//@   requires c != nil
+//@   ensures result == c.color
+//@ func (*pdfBarcode).Bounds
+//@   requires c != nil && c.code != nil && 1 <= c.width && c.width <= 100000 && 0 <= c.code.count && c.code.count <= 100000000
+//@   ensures result.Min.X == 0 && result.Min.Y == 0 && result.Max.X == c.width && result.Max.Y == (c.code.count / c.width) * moduleHeight
+//@ func (*pdfBarcode).At
+//@   requires c != nil && c.code != nil && 1 <= c.width && c.width <= 100000 && 0 <= x && x < c.width && 0 <= y && (y / moduleHeight) * c.width + x < c.code.count && c.code.count <= 100000000
+//@   ensures result == (c.code.model[(y / moduleHeight) * c.width + x] ? c.color.Foreground : c.color.Background)
